@@ -443,7 +443,8 @@ fn minimise_c06(case: &C06Case, kind: &str) -> C06Case {
   }
   let mut changed = true;
   let mut rounds = 0;
-  while changed && rounds < 30 {
+  let dl = Deadline::after_secs(60);
+  while changed && rounds < 30 && !dl.passed() {
     changed = false;
     rounds += 1;
     let mut i = best.h2.len();
